@@ -101,8 +101,9 @@ let () =
           let body = List.map (fun g -> String.concat " " (List.map show_tok g)) groups in
           let fin = match o with
             | OEnd ->
-                let g = s.s_lg in
-                Printf.sprintf "END lw=%s lr=%s areas=%d err=%b" (ids g.lg_w) (ids g.lg_r) (int_of_nat g.lg_areas) g.lg_err
+                let gw = s.s_w.w_lg and gr = s.s_r.r_lg in
+                Printf.sprintf "END lw=%s lr=%s areas=%d err=%b" (ids gw.lg_live) (ids gr.lg_live)
+                  (int_of_nat gw.lg_areas + int_of_nat gr.lg_areas) (gw.lg_err || gr.lg_err)
             | OInvalid i -> "INVALID@" ^ string_of_int (int_of_nat i)
             | OPanic -> "PANIC" in
           String.concat " | " (body @ [fin]))
